@@ -67,6 +67,16 @@ let model_find_strat label nm =
   if label = "T" then tree_find_strat cur.tree nm else ht_find_strat (mnat ()) cur.ht nm
 let model_entries label = if label = "T" then cur.tree.nodes else cur.ht.real
 
+(* C08, RIB-driven FIB: a next-hop record that no registered route requires at that prefix is residue *)
+let stale_records label (entries : fent amap) =
+  List.iter (fun (nm, e) ->
+      let want = Rib_glue.want_entry cur.rib nm in
+      List.iter (fun (f, c) ->
+          let r = dec_of_n f ^ ":" ^ dec_of_n c in
+          if not (List.mem r want) then
+            Printf.printf "MINIMAL %s %d %s stale-next-hop name=%s record=%s required=%s\n" cur.case_id cur.opno label
+              (string_of_name nm) r (if want = [] then "-" else String.concat "," want)) e.nhs) entries
+
 let handle_obs label kind (value : string) =
   incr nobs;
   match kind with
@@ -109,7 +119,8 @@ let handle_obs label kind (value : string) =
       let mv = nodes_string cur.tree.nodes in
       let differ = if cur.kind = "fib" then mv <> join_sorted (items_of value) else canon_nodes mv <> canon_nodes value in
       if differ then diverge label "nodes" mv value;
-      cur.impl_nodes <- ent_map_of_string value
+      cur.impl_nodes <- ent_map_of_string value;
+      if cur.kind = "rib" then stale_records label cur.impl_nodes
   | "pfx" ->
       let mv = join_sorted (List.map string_of_name cur.tree.pfx) in
       if mv <> join_sorted (items_of value) then diverge label "pfx" mv value;
@@ -122,7 +133,8 @@ let handle_obs label kind (value : string) =
       let mv = nodes_string cur.ht.real in
       let differ = if cur.kind = "fib" then mv <> join_sorted (items_of value) else canon_nodes mv <> canon_nodes value in
       if differ then diverge label "real" mv value;
-      cur.impl_real <- ent_map_of_string value
+      cur.impl_real <- ent_map_of_string value;
+      if cur.kind = "rib" then stale_records label cur.impl_real
   | "virt" ->
       let mv = join_sorted (List.map (fun (nm, md) -> string_of_name nm ^ "=" ^ string_of_int (int_of_nat md)) cur.ht.virt) in
       if mv <> join_sorted (items_of value) then diverge label "virt" mv value;
